@@ -84,7 +84,13 @@ def make_shared_update_case(case, ctx):
             if not pattern_ok(ref.node_order, requests[-1].split('/')[:-2]):
                 requests.pop()
         f2, r2 = gen.features(spec)
-        return spec, f2 + ['shared_subcircuit_update'], sorted(set(r2)), ref, rnd.random() < 0.5, rnd.choice(['dict', 'dict', 'list']), requests, 2
+        vec = rnd.random() < 0.5
+        if (set(r2) | c04.vec_risks(spec)) & ctx['excluded']:
+            # registering the sub-circuit twice doubles its nodes, which can create the vectorized groups of an open C04 finding:
+            # those networks are built without vectorization (the risk only arises with vectorize=True)
+            vec = False
+        r2 = set(r2) - {'vec_partial_input_default'} if not vec else set(r2)
+        return spec, f2 + ['shared_subcircuit_update'], sorted(r2), ref, vec, rnd.choice(['dict', 'dict', 'list']), requests, 2
     raise RuntimeError('generator could not satisfy the constraints')
 
 
